@@ -265,6 +265,9 @@ fn pair_actions() -> Vec<Action> {
         Action::tick(6_000),
         Action::tick(11_000),
         Action::line("DF4(A)", &frames::df4(A, frames::ac13_for_alt(31000))),
+        // "no position available" squitters (type code 0) of either parity bit: they carry no position
+        Action::line("TC0 f=0 (A)", &frames::df17(5, A, frames::me_airpos(0, 0, 0, frames::ac12_for_alt(36000), 0, 0, 0, 0))),
+        Action::line("TC0 f=1 (A)", &frames::df17(5, A, frames::me_airpos(0, 0, 0, frames::ac12_for_alt(36000), 0, 1, 0, 0))),
         Action::line("even p1 (B)", &pframe(B, p1, false)),
     ]
 }
